@@ -44,15 +44,9 @@ func Matches(pass *analysis.Pass, qs ...pattern.Pattern) iter.Seq2[ast.Node, *pa
 				continue
 			}
 
-			if len(q.RootCallSymbols) != 0 {
-				index := pass.ResultOf[typeindexanalyzer.Analyzer].(*typeindex.Index)
-				for _, isym := range q.RootCallSymbols {
-					var obj types.Object
-					if isym.Type == "" {
-						obj = index.Object(isym.Path, isym.Ident)
-					} else {
-						obj = index.Selection(isym.Path, isym.Type, isym.Ident)
-					}
+			index := pass.ResultOf[typeindexanalyzer.Analyzer].(*typeindex.Index)
+			if objs, ok := rootCallObjects(index, q.RootCallSymbols); ok {
+				for _, obj := range objs {
 					for c := range index.Calls(obj) {
 						node := c.Node()
 						if m, ok := Match(pass, q, node); ok {
@@ -78,6 +72,30 @@ func Matches(pass *analysis.Pass, qs ...pattern.Pattern) iter.Seq2[ast.Node, *pa
 			}
 		}
 	}
+}
+
+// rootCallObjects resolves the root call symbols of a pattern to the objects whose call sites are
+// the only candidates for a match. It reports false if there are no root call symbols or if the
+// call index cannot enumerate all candidates: predeclared functions belong to no package and are
+// unknown to the index.
+func rootCallObjects(index *typeindex.Index, syms []pattern.IndexSymbol) ([]types.Object, bool) {
+	if len(syms) == 0 {
+		return nil, false
+	}
+	objs := make([]types.Object, 0, len(syms))
+	for _, isym := range syms {
+		if isym.Path == "" {
+			return nil, false
+		}
+		var obj types.Object
+		if isym.Type == "" {
+			obj = index.Object(isym.Path, isym.Ident)
+		} else {
+			obj = index.Selection(isym.Path, isym.Type, isym.Ident)
+		}
+		objs = append(objs, obj)
+	}
+	return objs, true
 }
 
 func Match(pass *analysis.Pass, q pattern.Pattern, node ast.Node) (*pattern.Matcher, bool) {
@@ -106,6 +124,10 @@ func CouldMatchAny(pass *analysis.Pass, qs ...pattern.Pattern) bool {
 			}
 			return true
 		case pattern.IndexSymbol:
+			if node.Path == "" {
+				// Predeclared identifiers belong to no package; every package can refer to them.
+				return true
+			}
 			if node.Type == "" {
 				return index.Object(node.Path, node.Ident) != nil
 			} else {
